@@ -134,7 +134,10 @@ struct Acc {
 }
 
 pub fn sweep(ctx: &Ctx, label: &str, pool: &[PoolName], k: usize, params: &TreeParams, with_split: bool) {
-    let presets: &[Preset] = ctx.tier.pick(&[Preset::QuickXml], &[Preset::QuickXml, Preset::SerdeXmlRs]);
+    // the serde-xml-rs preset (no attribute prefix: attribute and child names share one key space)
+    // is rendered as well for the sweeps with decorated nodes and the root named from the subset
+    let both = ctx.tier == crate::ctx::Tier::Thorough || (params.root_from_subset && params.max_decorated >= 2);
+    let presets: &[Preset] = if both { &[Preset::QuickXml, Preset::SerdeXmlRs] } else { &[Preset::QuickXml] };
     let subs = subsets(pool.len(), k);
     let res = par_for(
         subs.len() as u64,
@@ -310,6 +313,43 @@ pub fn separator_sets() -> Vec<Vec<PoolName>> {
     out
 }
 
+/// two different leaf names whose ancestor-qualified struct names concatenate to the same text:
+/// r/a<sep>b/c with r/d/c ("AB"+"C") next to r/a/b<sep>c with r/e/b<sep>c ("A"+"BC")
+fn two_level_concat(ctx: &Ctx) {
+    let mut n = 0u64;
+    for sep in ["_", "-", "."] {
+        for decorated in [false, true] {
+            let ab = format!("a{}b", sep);
+            let bc = format!("b{}c", sep);
+            let leaf = |name: &str| {
+                let mut l = crate::dom::Node::new(name);
+                if decorated {
+                    l.attrs.push(("k".into(), "v".into()));
+                }
+                l
+            };
+            let parent = |name: &str, child: crate::dom::Node| {
+                let mut p = crate::dom::Node::new(name);
+                p.items.push(crate::dom::Item::Elem(child));
+                p
+            };
+            let mut root = crate::dom::Node::new("r");
+            for p in [parent(&ab, leaf("c")), parent("d", leaf("c")), parent("a", leaf(&bc)), parent("e", leaf(&bc))] {
+                root.items.push(crate::dom::Item::Elem(p));
+            }
+            let d = DocEntry::from_root(root);
+            if let Ok(el) = run_history(&[&d]) {
+                for preset in [Preset::QuickXml, Preset::SerdeXmlRs] {
+                    let text = subject::render(&el, preset, false);
+                    ctx.report_all(judge(&[&d], &text, (1 << 58) | n));
+                    n += 1;
+                }
+            }
+        }
+    }
+    ctx.add("evaluations", n);
+}
+
 /// case variants and digit suffixes of one name: identifier numbering (`foo`, `foo_1`, `foo2` ...)
 pub fn numbering_pool() -> Vec<PoolName> {
     ["foo", "Foo", "FOO", "foo2", "Foo2", "foo_2", "foo1", "foo_1"]
@@ -325,6 +365,7 @@ pub fn run(ctx: &Ctx) {
         sweep(ctx, &format!("separator-path names {:?}, 4-subsets, <=4 nodes, undecorated", set.iter().map(|p| p.name).collect::<Vec<_>>()), &set, 4,
               &TreeParams { min_nodes: 3, max_nodes: 4, max_decorated: 0, root_from_subset: false, shard: (0, 1) }, true);
     }
+    two_level_concat(ctx);
     sweep(ctx, "numbering pool, 4-subsets, <=4 nodes, <=1 decorated", &numbering_pool(), 4,
           &TreeParams { min_nodes: 2, max_nodes: 4, max_decorated: ctx.tier.pick(0, 1), root_from_subset: false, shard: (0, 1) }, false);
     let concat: Vec<PoolName> = ADV.iter().filter(|p| p.category == "concat").cloned().collect();
